@@ -534,7 +534,8 @@ class EZSP:
         ezsp_config = {}
         ezsp_values = {}
 
-        for cfg in DEFAULT_CONFIG[self._ezsp_version]:
+        # Newer, unknown protocol versions run with the newest known tables and defaults
+        for cfg in DEFAULT_CONFIG[self._protocol.VERSION]:
             if isinstance(cfg, RuntimeConfig):
                 ezsp_config[cfg.config_id.name] = dataclasses.replace(
                     cfg, config_id=t.EzspConfigId[cfg.config_id.name]
